@@ -19,7 +19,8 @@ KEYS = ("tid", "seq", "ev", "tok", "val", "chld", "anc", "links", "outcome", "ex
 
 def model_cfg(structural):
     return ("SPECIFICATION Spec\nCONSTANTS\n  RestoreOnFailure = TRUE\n  Structural = %s\nVIEW View\n"
-            "INVARIANT BaselineIntact\nINVARIANT TwinsPaired\nINVARIANT SimulatedValuesInstalled\n" % structural)
+            "INVARIANT BaselineIntact\nINVARIANT TwinsPaired\nINVARIANT SimulatedValuesInstalled\nINVARIANT GraphClosed\n"
+            "PROPERTY AllOrNothing\n" % structural)
 
 
 def run_focus(prop, focus, tier, out):
